@@ -1566,6 +1566,11 @@ impl Tree {
 		let checkpoint = DatabaseCheckpoint::new(Arc::clone(&self.core.inner));
 		let metadata = checkpoint.restore_from_checkpoint(checkpoint_dir)?;
 
+		// The block cache is keyed by table id (and value-log file id). The restored
+		// manifest rewinds the id counters, so new tables reuse the ids of tables of
+		// the discarded timeline: drop everything cached under them.
+		self.core.inner.opts.block_cache.clear();
+
 		// Step 2: Reload in-memory state to match restored files
 
 		// Create a new LevelManifest from the current path
